@@ -10,6 +10,11 @@ cellspec (JSON list): ["none"] ["bool",b] ["int","<decimal>"] ["float","<hex>|na
   ["time",H,M,S,us] ["td",days,seconds,us] ["list",[spec]] ["tuple",[spec]] ["dict",[[keyspec,spec]]] ["set",[spec]]
   ["complex",re,im] ["np",kind,text]  (kind: int8..uint64,float16..float64,bool,str,bytes,datetime64,complex64)
   ["nparr",dtype,nested list | scalar] ["nptd",count|None,unit]
+  round 4: ["sub",cls,basespec]  an instance of a proper SUBCLASS of basespec's class (cls: SubInt IntEnum IntFlag SubFloat SubStr SubBytes
+             SubByteArray SubDecimal SubDate SubDateTime SubTimedelta SubDict OrderedDict defaultdict SubList SubTuple namedtuple)
+           ["npsub",cls,dtype,data,mask|None]  an instance of an ndarray SUBCLASS (cls: masked matrix recarray subarr chararray masked_const)
+           nparr dtypes also U / S (hex items) / datetime64[..] / timedelta64[..] / complex128 ([re,im] items) / struct ([int,int] items)
+  cfg["dw"] may be true (terminal width = "cols") or false (no limit, 5000); cfg["argkind"] == "sub": limit / widths passed as int-subclass instances
 With "idcol" the first column holds the int 1000+row index, so the row a label stands next to can be read back.
 Observation: for display / markdown / str: {"exc": name} or {"text": str}; derived: labels, ellipsis position,
 line widths (colour codes stripped)."""
@@ -30,7 +35,9 @@ TECHNIQUE = ("Coq proofs over an executable model of ascii_table/markdown/__str_
              "width accounting of trunc_printable by induction over the text) + model/implementation correspondence evaluated in Coq")
 LEVEL_TEXT = ("Machine-checked Coq theorems over an executable Gallina model of orso/display.py: for every frame, limit >= 1, both modes, "
               "eager and lazy, the rows shown are the first and last `limit` (all when n <= 2*limit) with exactly one ellipsis line otherwise and every "
-              "label is the row's true 1-based position; for every enumerated cell kind the formatter, the table and str() return Ok (no Raise reachable; bytes of any content, timedelta64 of any unit and NaT included); for "
+              "label is the row's true 1-based position; a cell that is an instance of a proper SUBCLASS of a listed kind (masked array / matrix / recarray / "
+              "user ndarray subclass; int, float, str, bytes, Decimal, date, datetime, timedelta, dict, list, tuple subclasses) is formatted, "
+              "and the whole frame rendered by all three renderers, exactly as the base-class instance of equal content is; for every enumerated cell kind the formatter, the table and str() return Ok (no Raise reachable; bytes of any content, timedelta64 of any unit and NaT included); for "
               "printable-ASCII names and cells every box line handed to colorizer has the same printed width min(table width, display width). The model "
               "is tied to the code by rendering real DataFrames (display / ascii_table head-only / markdown / str, eager and generator-backed, every "
               "listed cell kind) and evaluating the model on the same frames inside Coq: full output compared by length + 61-bit digest, labels, "
@@ -48,10 +55,14 @@ DESIGN_REF = "DESIGN.md section 8, C18"
 COQ_IMPORTS = "From Coq Require Import String.\nFrom Orso Require Import Model.C18."
 COQ_CHECKS = {"render": "c18_check"}
 COQ_SHOW = {"render": "c18_show"}
-RULE = ("frames of 0..30 rows x 0..5 columns over every listed cell kind (null, bool, int, float incl. nan/inf, text with any Unicode / line "
+RULE = ("a deterministic cell-class table (every listed kind, every builtin / library subclass instance, every ndarray subclass x dtype x "
+        "shape, every ndarray dtype, every NumPy scalar kind) one cell per frame and six per frame, eager and lazy; "
+        "frames of 0..30 rows x 0..5 columns over every listed cell kind (null, bool, int, float incl. nan/inf, text with any Unicode / line "
         "breaks / control / wide characters, bytes of any content, date, datetime, time, timedelta, Decimal, list, tuple, dict, set, complex, NumPy "
-        "scalars and arrays, timedelta64), list-of-names and RelationSchema schemas, limits 1..8, colour on/off, type row on/off, max column "
-        "width 1..40 and display width 1..200 (narrower and wider than the table), head-only and top-and-tail, eager and generator-backed; "
+        "scalars and arrays of every dtype, timedelta64, subclass instances of all of these incl. masked arrays / matrix / recarray), text also "
+        "non-NFC and with special case folding, list-of-names and RelationSchema schemas, limits 1..8, colour on/off, type row on/off, max column "
+        "width 1..40 and display width 1..200 (narrower and wider than the table) or given as a bool, integer arguments also as int-subclass "
+        "instances, head-only and top-and-tail, eager and generator-backed; "
         "each rendered by display()/ascii_table, markdown() and str(); a case is non-trivial when the frame has at least one row and one "
         "column; distinct by canonical JSON")
 TRUSTED = [
@@ -65,6 +76,8 @@ ASSUMPTIONS = [
     "limit >= 1, max_column_width >= 1, display width >= 1, rows rectangular (ragged rows: see C10)",
     "equal-width theorem: names, type names and all cell texts printable ASCII (32..126)",
     "every cell value has a str() (supplied with the case)",
+    "a subclass instance is described as VSub around the description of the base-class instance of equal content; the subclasses used override "
+    "no method (IntEnum / IntFlag / OrderedDict / defaultdict / namedtuple / MaskedArray / matrix / recarray / chararray as the libraries define them)",
 ]
 
 ANSI = re.compile(r"\x1b\[[0-9;]*m")
@@ -215,12 +228,43 @@ def build(spec):
             return numpy.datetime64(txt)
         if kind == "complex64":
             return numpy.complex64(complex(txt))
-        if kind.startswith("float"):
+        if kind == "complex128":
+            return numpy.complex128(complex(txt))
+        if kind.startswith("float") or kind == "longdouble":
             return getattr(numpy, kind)(_float_of(txt))
         return getattr(numpy, kind)(int(txt))
+    if k == "sub":
+        return _make_sub(spec[1], build(spec[2]))
+    if k == "npsub":
+        cls, dtype, data, mask = spec[1], spec[2], spec[3], spec[4]
+        if cls == "masked_const":
+            return numpy.ma.masked
+        base = build(["nparr", dtype, data])
+        if cls == "masked":
+            return numpy.ma.masked_array(base, mask=False if mask is None else mask)
+        if cls == "matrix":
+            return numpy.matrix(base)
+        if cls == "recarray":
+            return base.view(numpy.recarray)
+        if cls == "subarr":
+            return base.view(_sub_class("SubArr"))
+        if cls == "chararray":
+            return numpy.char.array(base)
+        raise KeyError(cls)
     if k == "nparr":
         dtype, data = spec[1], spec[2]
 
+        if dtype == "S":
+            def hx(x):
+                return [hx(y) for y in x] if isinstance(x, list) else bytes.fromhex(x)
+            return numpy.array(hx(data), dtype="S")
+        if dtype == "complex128":
+            return numpy.array([complex(a, b) for a, b in data], dtype="complex128")
+        if dtype == "struct":
+            sd = [("a", "i8"), ("b", "i4")]
+            if data and not isinstance(data[0], list):
+                return numpy.array(tuple(data), dtype=sd)      # 0-d
+            return numpy.array([tuple(x) for x in data], dtype=sd)
         if dtype == "object":
             items = [build(x) for x in data]
             a = numpy.empty(len(items), dtype=object)
@@ -239,7 +283,52 @@ def build(spec):
     raise KeyError(k)
 
 
-_KINDS = {"none", "bool", "int", "float", "dec", "str", "bytes", "bytearray", "date", "datetime", "time", "td", "list", "tuple",
+# ---- subclass instances (round 4) ----
+SUBS = {"int": ["SubInt", "IntEnum", "IntFlag"], "float": ["SubFloat"], "str": ["SubStr"], "bytes": ["SubBytes"],
+        "bytearray": ["SubByteArray"], "dec": ["SubDecimal"], "date": ["SubDate"], "datetime": ["SubDateTime"],
+        "td": ["SubTimedelta"], "dict": ["SubDict", "OrderedDict", "defaultdict"], "list": ["SubList"],
+        "tuple": ["SubTuple", "namedtuple"]}
+_SUB_CACHE = {}
+
+
+def _sub_class(name):
+    """A class that is a proper subclass of the builtin / library class and overrides nothing."""
+    if name not in _SUB_CACHE:
+        import numpy
+
+        base = {"SubInt": int, "SubFloat": float, "SubStr": str, "SubBytes": bytes, "SubByteArray": bytearray,
+                "SubDecimal": decimal.Decimal, "SubDate": datetime.date, "SubDateTime": datetime.datetime,
+                "SubTimedelta": datetime.timedelta, "SubDict": dict, "SubList": list, "SubTuple": tuple,
+                "SubArr": numpy.ndarray}[name]
+        _SUB_CACHE[name] = type(name, (base,), {})
+    return _SUB_CACHE[name]
+
+
+def _make_sub(cls, v):
+    import collections
+    import enum
+
+    if cls == "IntEnum":
+        return enum.IntEnum("Kind", {"MEMBER": int(v)}).MEMBER
+    if cls == "IntFlag":
+        return enum.IntFlag("Flag", {"A": 1, "B": 2, "C": 4})(abs(int(v)) % 8)
+    if cls == "OrderedDict":
+        return collections.OrderedDict(v)
+    if cls == "defaultdict":
+        return collections.defaultdict(int, v)
+    if cls == "namedtuple":
+        return collections.namedtuple("NT", ["f%d" % i for i in range(len(v))])(*v)
+    c = _sub_class(cls)
+    if cls == "SubDateTime":
+        return c(v.year, v.month, v.day, v.hour, v.minute, v.second, v.microsecond, tzinfo=v.tzinfo)
+    if cls == "SubDate":
+        return c(v.year, v.month, v.day)
+    if cls == "SubTimedelta":
+        return c(days=v.days, seconds=v.seconds, microseconds=v.microseconds)
+    return c(v)
+
+
+_KINDS = {"sub", "npsub", "none", "bool", "int", "float", "dec", "str", "bytes", "bytearray", "date", "datetime", "time", "td", "list", "tuple",
           "set", "dict", "complex", "np", "nparr", "nptd"}
 
 
@@ -265,8 +354,20 @@ def _isnan(x):
     return x != x
 
 
+_EXACT = (type(None), bool, int, float, decimal.Decimal, str, datetime.datetime, datetime.date, bytes, bytearray, dict,
+          datetime.timedelta, list, tuple)
+
+
 def describe_py(v):
-    """Plain Python values (the cell itself, or what ndarray.tolist() returned)."""
+    """Plain Python values (the cell itself, or what ndarray.tolist() returned).  An instance of a proper subclass of a class
+    the formatter tests for is marked VSub around the description of the base-class instance of equal content."""
+    d = _describe_base(v)
+    if type(v) not in _EXACT and not d.term.startswith("(VOther"):
+        return Desc("(VSub %s)" % d.term, d.own, d.texts, raw=d.raw)
+    return d
+
+
+def _describe_base(v):
     if v is None:
         return Desc("VNone", "None", [])
     if isinstance(v, bool):
@@ -306,15 +407,20 @@ def describe(spec, v):
         kind = spec[1]
         if kind == "bool":
             return Desc("(VNpBool %s)" % L.boolean(bool(v)), None, [])
-        if kind in ("str", "bytes", "datetime64", "complex64"):
+        if kind in ("str", "bytes", "datetime64", "complex64", "complex128"):
             return Desc("(VNpOther %s)" % ctext(str(v)), str(v), [str(v)])
-        if kind.startswith("float"):
+        if kind.startswith("float") or kind == "longdouble":
             f = float(v)
             return Desc("(VNpFloat %s %s)" % (L.boolean(_isnan(f)), ctext(str(f))), str(f), [])
         return Desc("(VNpInt %s)" % ctext(str(int(v))), str(int(v)), [])
     if k == "nparr":
         inner = describe_py(v.tolist())
         return Desc("(VNpArray %s)" % inner.term, None, inner.texts, raw=inner.raw)
+    if k == "npsub":
+        if type(v) is numpy.ndarray or not isinstance(v, numpy.ndarray):
+            raise RuntimeError("C18: npsub spec did not build an ndarray-subclass instance: %r" % (spec,))
+        inner = describe_py(v.tolist())
+        return Desc("(VSub (VNpArray %s))" % inner.term, None, inner.texts, raw=inner.raw)
     if k == "nptd":
         is_nat = spec[1] is None
         linear = spec[2] in LINEAR_UNITS
@@ -380,27 +486,34 @@ def observe(case):
     schema = _schema(case)
     cfg = case["cfg"]
 
-    def disp():
-        df = _frame(case, rows, schema)
-        if cfg["tt"]:
-            return df.display(limit=cfg["limit"], display_width=cfg["dw"], max_column_width=cfg["mcw"],
-                              colorize=cfg["colorize"], show_types=cfg["show_types"])
-        return ascii_table(df, limit=cfg["limit"], display_width=cfg["dw"], max_column_width=cfg["mcw"],
-                           colorize=cfg["colorize"], top_and_tail=False, show_types=cfg["show_types"])
+    # the integer arguments as plain ints or (round 4) as instances of an int subclass; display_width may be a bool
+    num = _sub_class("SubInt") if cfg.get("argkind") == "sub" else int
+    dw = cfg["dw"] if isinstance(cfg["dw"], bool) else num(cfg["dw"])
 
-    def md():
-        return _frame(case, rows, schema).markdown(limit=case["md"]["limit"], max_column_width=case["md"]["mcw"])
-
-    def st():
+    def with_columns(fn):
         old = os.environ.get("COLUMNS")
         os.environ["COLUMNS"] = str(case["cols"])
         try:
-            return str(_frame(case, rows, schema))
+            return fn()
         finally:
             if old is None:
                 os.environ.pop("COLUMNS", None)
             else:
                 os.environ["COLUMNS"] = old
+
+    def disp():
+        df = _frame(case, rows, schema)
+        if cfg["tt"]:
+            return with_columns(lambda: df.display(limit=num(cfg["limit"]), display_width=dw, max_column_width=num(cfg["mcw"]),
+                                                   colorize=cfg["colorize"], show_types=cfg["show_types"]))
+        return with_columns(lambda: ascii_table(df, limit=num(cfg["limit"]), display_width=dw, max_column_width=num(cfg["mcw"]),
+                                                colorize=cfg["colorize"], top_and_tail=False, show_types=cfg["show_types"]))
+
+    def md():
+        return _frame(case, rows, schema).markdown(limit=num(case["md"]["limit"]), max_column_width=num(case["md"]["mcw"]))
+
+    def st():
+        return with_columns(lambda: str(_frame(case, rows, schema)))
 
     return {"display": _run(disp), "markdown": _run(md), "str": _run(st)}
 
@@ -424,6 +537,32 @@ def parse_table(text):
         else:
             body.append(("ellipsis", ln))
     return {"head": lines[:sep[0]], "sepline": lines[sep[0]], "body": body, "last": lines[-1], "lines": lines}
+
+
+_NO_WIDTH_LIMIT = None
+
+
+def _no_width_limit():
+    """What ascii_table uses for display_width=False: the literal in the live source when it is still written as an assignment
+    under `if not display_width`, else the documented value (docstring: "False disables (5000)").  Never raises: a rewritten
+    width selection must still be run against the cases."""
+    global _NO_WIDTH_LIMIT
+    if _NO_WIDTH_LIMIT is None:
+        from orso.display import ascii_table
+
+        m = re.search(r"if not display_width:[^\n]*\n\s*display_width\s*=\s*(\d+)", inspect.getsource(ascii_table))
+        _NO_WIDTH_LIMIT = int(m.group(1)) if m and int(m.group(1)) <= 5000 else 5000
+    return _NO_WIDTH_LIMIT
+
+
+def eff_dw(case):
+    """The display width in force: an int as given; True = the terminal's (COLUMNS = case["cols"]); False = no limit."""
+    dw = case["cfg"]["dw"]
+    if dw is True:
+        return case["cols"]
+    if dw is False:
+        return _no_width_limit()
+    return dw
 
 
 def expected_labels(n, limit, tt):
@@ -517,7 +656,11 @@ def _check_table(case, text, limit, tt, dw, show_types, what):
         return f"{what}: exactly one ellipsis line after the first {limit} rows expected (n={n} > 2*{limit}), found at body lines {ells}"
     if len(p["head"]) != (3 if show_types else 2):
         return f"{what}: top rule + column names" + (" + types" if show_types else "") + f" expected before the separator, found {len(p['head'])} lines"
+    room = dw >= len(str(n + 1)) + 5       # "│", the index column (at most len(str(n + 1)) + 2 wide), "│" all fit
     for (_, lab, ln), w in zip(rows, want):
+        if lab is None and room:
+            return (f"{what}: a row line carries no readable label although the display width ({dw}) leaves room for the index column "
+                    f"(expected label {w}): {ln!r}")
         if lab is not None and lab != w:
             return f"{what}: row line labelled {lab} where the true 1-based position is {w} (n={n}, limit={limit}): {ln!r}"
         if lab is not None and case.get("idcol") and case["names"]:
@@ -557,7 +700,7 @@ def oracle(case, obs):
     for what in ("display", "markdown", "str"):
         if "exc" in obs[what]:
             return f"{what} must complete without error, raised {obs[what]['exc']}: {obs[what].get('msg', '')}"
-    why = _check_table(case, obs["display"]["text"], cfg["limit"], cfg["tt"], cfg["dw"], cfg["show_types"], "display")
+    why = _check_table(case, obs["display"]["text"], cfg["limit"], cfg["tt"], eff_dw(case), cfg["show_types"], "display")
     if why:
         return why
     st = obs["str"]["text"]
@@ -604,7 +747,7 @@ def to_coq(case, obs):
     else:
         cts = "(Some %s)" % L.lst(_coltype_term(c) for c in _schema(case).columns)
     frame = "(mkframe %s %s %s %s)" % (L.lst(ctext(n) for n in case["names"]), cts, rows, L.boolean(case["lazy"]))
-    config = "(mkconfig %s %s %s %s %s %s)" % (L.nat(cfg["limit"]), L.nat(cfg["dw"]), L.nat(cfg["mcw"]), L.boolean(cfg["colorize"]),
+    config = "(mkconfig %s %s %s %s %s %s)" % (L.nat(cfg["limit"]), L.nat(eff_dw(case)), L.nat(cfg["mcw"]), L.boolean(cfg["colorize"]),
                                              L.boolean(cfg["tt"]), L.boolean(cfg["show_types"]))
     labels = "None"
     widths = "None"
@@ -638,7 +781,9 @@ def nontrivial_key(case, obs):
 
 
 def _spec_kinds(spec):
-    yield spec[0] if spec[0] not in ("np", "nparr") else f"{spec[0]}:{spec[1]}"
+    yield spec[0] if spec[0] not in ("np", "nparr", "sub", "npsub") else f"{spec[0]}:{spec[1]}"
+    if spec[0] == "npsub" and spec[1] != "masked_const":
+        yield f"npsub-dtype:{spec[2]}"
 
 
 def classify(case, obs):
@@ -654,7 +799,11 @@ def classify(case, obs):
     yield "ascii" if ascii_only(case) else "non-ascii"
     if "text" in obs["display"]:
         w = max(len(ANSI.sub("", ln)) for ln in obs["display"]["text"].split("\n"))
-        yield "cut-by-display-width" if w >= cfg["dw"] else "fits-display-width"
+        yield "cut-by-display-width" if w >= eff_dw(case) else "fits-display-width"
+    if isinstance(cfg["dw"], bool):
+        yield "display_width=%s" % cfg["dw"]
+    if cfg.get("argkind") == "sub":
+        yield "int-subclass-arguments"
     seen = set()
     for r in case["rows"]:
         for c in r:
@@ -669,7 +818,11 @@ def classify(case, obs):
 ASCII_WORDS = ["", "a", "x y", "hello", "Lorem ipsum dolor", "it's", 'q"uote', "{k}", "[1]", "0", "null", "m", "mmmm", "a\\nb",
                "a|b", "  lead", "trail  ", "~tilde~", "The quick brown fox jumps over the lazy dog 0123456789"]
 UNI_WORDS = ["日本語テキスト", "\U0001f44d\U0001f3fd", "café", "é", "a​b", "│─┘",
-             "Жук", "שלום", "↵", "�", "\ud800", "\U0010ffff", "　wide space", "ＡＢ"]
+             "Жук", "שלום", "↵", "�", "\ud800", "\U0010ffff", "　wide space", "ＡＢ",
+             # round 4: not NFC / case folding differs from lower(): decomposed e-acute and a-ring, sharp s, final sigma, dotless i,
+             # dotted capital I, long s, Kelvin and Angstrom signs, fi ligature, Hangul jamo, precomposed vs decomposed
+             "e\u0301te\u0301", "A\u030angstro\u0308m", "Stra\u00dfe", "\u03bf\u03b4\u03cc\u03c2", "\u0131\u0130i", "\u017ftop", "\u212a\u212b",
+             "\ufb01n", "\u1112\u1161\u11ab", "\u00e9 e\u0301"]
 CTRL_WORDS = ["a\nb", "a\r\nb", "\n\n\n\n\n\n", "tab\there", "nul\x00", "\x01OFFm", "a\x01b", "\x1b[31mred\x1b[0m", "\x1b", "esc\x1bno-m-after",
               "\x01", "\x7f", "\x85next", " ls", "\x0b\x0c", "x\x01REDmy\x01OFFmz", "\r", "m\x01m"]
 
@@ -711,14 +864,15 @@ def _rand_float_hex(rng):
     r = rng.random()
     if r < 0.15:
         return rng.choice(["nan", "inf", "-inf"])
-    x = rng.choice([0.0, -0.0, 1.5, -2.25, 1e-7, 1e22, 123456.789, 0.1, 3.141592653589793, 1e300, 5e-324, rng.uniform(-1000, 1000)])
+    x = rng.choice([0.0, -0.0, 1.0, 1.5, -2.25, 1e-7, 1e22, 123456.789, 0.1, 3.141592653589793, 1e300, 5e-324, 2.0**53, 2.0**64,
+                    rng.uniform(-1000, 1000)])
     return float(x).hex()
 
 
 def _rand_simple(rng, mode):
     r = rng.random()
     if r < 0.2:
-        return ["int", str(rng.choice([0, 1, -1, 7, 42, 2**31, -2**63, 10**18, rng.randint(-10**6, 10**6)]))]
+        return ["int", str(rng.choice([0, 1, -1, 7, 42, 2**31, -2**63, 10**18, 2**53 + 1, 2**64, -2**64 - 1, rng.randint(-10**6, 10**6)]))]
     if r < 0.4:
         return ["str", _rand_text(rng, mode)]
     if r < 0.5:
@@ -727,7 +881,7 @@ def _rand_simple(rng, mode):
         return ["bool", rng.random() < 0.5]
     if r < 0.8:
         return ["float", _rand_float_hex(rng)]
-    return ["dec", rng.choice(["0", "1.50", "-0.001", "1E+400", "NaN", "sNaN", "-Infinity", "123456789.123456789", "0E-10"])]
+    return ["dec", rng.choice(["0", "1", "1.0", "-0", "1.50", "-0.001", "1E+400", "NaN", "sNaN", "-Infinity", "123456789.123456789", "0E-10"])]
 
 
 def _rand_us(rng):
@@ -769,7 +923,8 @@ def _rand_cell(rng, mode, kind=None):
     if kind == "other":
         return rng.choice([["set", [["int", "1"]]], ["set", []], ["complex", 1.0, -2.5], ["time", 1, 2, 3, 0]])
     if kind == "np":
-        k = rng.choice(["int8", "int64", "uint64", "uint8", "float16", "float32", "float64", "bool", "str", "bytes", "datetime64", "complex64"])
+        k = rng.choice(["int8", "int16", "int32", "int64", "uint64", "uint32", "uint16", "uint8", "float16", "float32", "float64", "longdouble",
+                        "bool", "str", "bytes", "datetime64", "complex64", "complex128"])
         if k == "bool":
             return ["np", k, rng.random() < 0.5]
         if k == "str":
@@ -778,11 +933,12 @@ def _rand_cell(rng, mode, kind=None):
             return ["np", k, _rand_bytes_hex(rng, mode).replace("00", "41")]
         if k == "datetime64":
             return ["np", k, rng.choice(["2020-01-01", "2020-01-01T00:00:01", "NaT", "1970-01-01T00:00:00.000001"])]
-        if k == "complex64":
+        if k in ("complex64", "complex128"):
             return ["np", k, rng.choice(["1+2j", "0j", "-1.5j"])]
-        if k.startswith("float"):
+        if k.startswith("float") or k == "longdouble":
             return ["np", k, rng.choice(["nan", "inf", float(0.1).hex(), float(1.5).hex(), float(-2.0).hex(), float(65504.0).hex()])]
-        lo, hi = {"int8": (-128, 127), "int64": (-2**63, 2**63 - 1), "uint64": (0, 2**64 - 1), "uint8": (0, 255)}[k]
+        lo, hi = {"int8": (-128, 127), "int16": (-2**15, 2**15 - 1), "int32": (-2**31, 2**31 - 1), "int64": (-2**63, 2**63 - 1),
+                  "uint64": (0, 2**64 - 1), "uint32": (0, 2**32 - 1), "uint16": (0, 2**16 - 1), "uint8": (0, 255)}[k]
         return ["np", k, str(rng.choice([lo, hi, 0, rng.randint(lo, hi)]))]
     if kind == "nparr":
         r = rng.random()
@@ -796,9 +952,75 @@ def _rand_cell(rng, mode, kind=None):
             return ["nparr", "float64", rng.choice(["nan", float(2.5).hex()])]  # 0-d
         if r < 0.8:
             return ["nparr", "int64", [[1, 2], [3, 4]]]
-        if r < 0.9:
+        if r < 0.85:
             return ["nparr", "bool", [True, False]]
+        if r < 0.93:
+            return rng.choice(NPARR_MORE)
         return ["nparr", "object", [_rand_simple(rng, mode) for _ in range(rng.choice([1, 2, 3]))]]
+    if kind == "sub":
+        base = rng.choice(["int", "int", "float", "str", "bytes", "bytearray", "dec", "date", "datetime", "td", "dict", "list", "tuple"])
+        if base == "int":
+            spec = ["int", str(rng.choice([0, 1, -1, 5, 42, 10**18, 2**64, rng.randint(-10**6, 10**6)]))]
+        elif base == "float":
+            spec = ["float", _rand_float_hex(rng)]
+        elif base == "str":
+            spec = ["str", _rand_text(rng, mode)]
+        elif base == "dec":
+            spec = ["dec", rng.choice(["0", "1", "1.50", "NaN", "-Infinity", "1E+400"])]
+        elif base in ("bytes", "bytearray"):
+            spec = [base, _rand_bytes_hex(rng, mode)]
+        elif base in ("list", "tuple"):
+            spec = [base, [_rand_simple(rng, mode) for _ in range(rng.choice([0, 1, 2, 3]))]]
+        else:
+            spec = _rand_cell(rng, mode, base)
+        return ["sub", rng.choice(SUBS[spec[0]]), spec]
+    if kind == "npsub":
+        r = rng.random()
+        if r < 0.45:   # masked arrays: int / float / bool, 0..5 elements, any mask; 2-d; 0-d
+            dtype = rng.choice(["int64", "int8", "uint16", "float64", "float32", "bool"])
+            shape = rng.choice(["1d", "1d", "1d", "2d", "0d"])
+            def item():
+                if dtype == "bool":
+                    return rng.random() < 0.5
+                if dtype.startswith("float"):
+                    return rng.choice(["nan", float(1.5).hex(), float(-0.25).hex(), float(2.0).hex()])
+                return rng.randint(0, 100)
+            if shape == "0d":
+                return ["npsub", "masked", dtype, item(), rng.choice([None, True, False])]
+            if shape == "2d":
+                return ["npsub", "masked", dtype, [[item(), item()], [item(), item()]],
+                        rng.choice([None, [[rng.random() < 0.5, rng.random() < 0.5], [rng.random() < 0.5, rng.random() < 0.5]]])]
+            n = rng.choice([0, 1, 2, 3, 5])
+            return ["npsub", "masked", dtype, [item() for _ in range(n)], rng.choice([None, [rng.random() < 0.5 for _ in range(n)]])]
+        if r < 0.5:
+            return ["npsub", "masked_const", None, None, None]
+        if r < 0.7:    # numpy.matrix: always 2-d
+            dtype = rng.choice(["int64", "float64", "bool", "uint8"])
+            n = rng.choice([1, 2, 3])
+            if dtype == "bool":
+                rows_ = [[rng.random() < 0.5 for _ in range(n)] for _ in range(rng.choice([1, 2]))]
+            elif dtype == "float64":
+                rows_ = [[rng.choice(["nan", float(1.5).hex(), float(-2.0).hex()]) for _ in range(n)] for _ in range(rng.choice([1, 2]))]
+            else:
+                rows_ = [[rng.randint(0, 9) for _ in range(n)] for _ in range(rng.choice([1, 2]))]
+            return ["npsub", "matrix", dtype, rows_, None]
+        if r < 0.8:
+            return rng.choice([["npsub", "recarray", "int64", [rng.randint(-5, 5) for _ in range(rng.choice([1, 2, 4]))], None],
+                               ["npsub", "recarray", "struct", [[rng.randint(0, 9), rng.randint(0, 9)] for _ in range(rng.choice([0, 1, 2]))], None],
+                               ["npsub", "recarray", "float64", [float(0.5).hex(), "nan"], None],
+                               ["npsub", "chararray", "U", ["a", "bc"], None]])
+        dtype = rng.choice(["int64", "float64", "bool", "U", "timedelta64[s]"])
+        if dtype == "bool":
+            data = [rng.random() < 0.5 for _ in range(rng.choice([0, 1, 2, 3]))]
+        elif dtype == "float64":
+            data = [rng.choice(["nan", float(1.5).hex(), float(0.1).hex()]) for _ in range(rng.choice([1, 2, 3]))]
+        elif dtype == "U":
+            data = [rng.choice(["a", "bc", "", "x y"]) for _ in range(rng.choice([1, 2]))]
+        else:
+            data = [rng.randint(-5, 5) for _ in range(rng.choice([0, 1, 2, 3]))]
+        if rng.random() < 0.15 and dtype in ("int64", "float64", "bool"):
+            data = data[0] if data else (True if dtype == "bool" else (float(2.5).hex() if dtype == "float64" else 3))   # 0-d
+        return ["npsub", "subarr", dtype, data, None]
     if kind == "nptd":
         if rng.random() < 0.3:  # NaT and month / year units (F-C18-3, fixed)
             return rng.choice([["nptd", None, "ns"], ["nptd", None, "D"], ["nptd", None, "M"], ["nptd", 3, "M"], ["nptd", 2, "Y"], ["nptd", 0, "M"],
@@ -814,7 +1036,19 @@ def _rand_cell(rng, mode, kind=None):
 
 
 KIND_CHOICES = ["simple"] * 6 + ["bytes", "bytes", "date", "datetime", "time", "td", "td", "list", "list", "dict", "dict", "nested", "other",
-                                 "np", "np", "nparr", "nptd", "bigint"]
+                                 "np", "np", "nparr", "nptd", "bigint", "sub", "sub", "npsub", "npsub"]
+# ndarray cells of the remaining dtypes and shapes (tolist() gives str / bytes / date / datetime / timedelta / int / complex / tuple items)
+NPARR_MORE = [
+    ["nparr", "uint8", [0, 255]], ["nparr", "int16", [[-1], [2]]], ["nparr", "float32", [float(0.5).hex(), "nan"]],
+    ["nparr", "float16", [float(1.5).hex()]], ["nparr", "U", ["a", "bc", ""]], ["nparr", "U", "solo"], ["nparr", "S", ["61", "ff"]],
+    ["nparr", "datetime64[D]", ["2020-01-01", "NaT"]], ["nparr", "datetime64[D]", "2020-02-29"], ["nparr", "datetime64[s]", ["1970-01-01T00:00:01"]],
+    ["nparr", "datetime64[s]", "2024-05-06T07:08:09"], ["nparr", "datetime64[ns]", ["2020-01-01T00:00:00.000000001"]],
+    ["nparr", "timedelta64[s]", [1, 90061]], ["nparr", "timedelta64[s]", 3661], ["nparr", "timedelta64[ns]", [1, 2]],
+    ["nparr", "timedelta64[s]", ["NaT"]], ["nparr", "timedelta64[D]", "NaT"], ["nparr", "timedelta64[M]", [14]],
+    ["nparr", "complex128", [[1.0, 2.0], [0.0, -1.5]]], ["nparr", "struct", [[1, 2], [3, 4]]], ["nparr", "struct", [5, 6]],
+    ["nparr", "float64", []], ["nparr", "float64", [[], []]], ["nparr", "uint8", [[[0, 1]]]], ["nparr", "bool", True], ["nparr", "bool", []],
+    ["nparr", "uint64", [2**64 - 1, 2**53 + 1]], ["nparr", "int64", [-2**63]],
+]
 TYPES = ["INTEGER", "VARCHAR", "DOUBLE", "BOOLEAN", "BLOB", "DATE", "TIMESTAMP", "TIME", "INTERVAL", "STRUCT", "JSONB", "NULL", None]
 
 
@@ -857,6 +1091,8 @@ def _rand_case(rng, mode=None, n=None, limit=None, lazy=None, tt=None):
         nm = rng.choice(["a", "id", "name", "a_rather_long_column_name_for_a_table", "", " x "]) if rng.random() < 0.7 else _rand_text(rng, mode)
         names.append(nm)
     dw = rng.choice([1, 2, 3, 5, 8, 13, 20, 30, 50, 80, 120, 200, rng.randint(1, 200)])
+    if rng.random() < 0.08:      # round 4: display_width given as a bool (terminal width / no limit)
+        dw = rng.random() < 0.6
     case = {
         "names": names,
         "schema": _rand_schema(rng, ncols) if rng.random() < 0.4 else None,
@@ -868,6 +1104,8 @@ def _rand_case(rng, mode=None, n=None, limit=None, lazy=None, tt=None):
         "md": {"limit": rng.choice([1, 2, 5, 8, 40]), "mcw": rng.choice([1, 3, 8, 30])},
         "cols": rng.choice([1, 10, 40, 80, 200]),
     }
+    if rng.random() < 0.08:      # round 4: limit / widths passed as instances of an int subclass
+        case["cfg"]["argkind"] = "sub"
     return case
 
 
@@ -930,6 +1168,89 @@ def corpus():
     yield _ints_case(1003, 3, False, True, colorize=True)
 
 
+def kind_table():
+    """Round 4: one spec (at least) for every cell class the formatter can meet, deterministic: every listed kind, every builtin /
+    library SUBCLASS instance of it, every ndarray SUBCLASS (masked array, matrix, recarray, chararray, user subclass) x
+    int / float / bool / other dtypes x 0-d / 1-d (0, 1, several elements) / 2-d, the remaining ndarray dtypes, every NumPy scalar kind."""
+    f15, f25, fm = float(1.5).hex(), float(2.5).hex(), float(-0.25).hex()
+    t = [["none"], ["bool", True], ["bool", False], ["int", "0"], ["int", "1"], ["int", "-7"], ["int", str(2**53 + 1)], ["int", str(2**64)],
+         ["float", float(1.0).hex()], ["float", float(-0.0).hex()], ["float", "nan"], ["float", "-inf"], ["float", float(2.0**64).hex()],
+         ["dec", "1"], ["dec", "1.0"], ["dec", "NaN"], ["dec", "-0"], ["str", "text"], ["str", ""], ["str", "a\nb"],
+         ["str", "e\u0301"], ["str", "Stra\u00dfe \u03c2 \u0131 \u017f \u212a"], ["bytes", "6162"], ["bytes", "fffe"], ["bytearray", "c3"],
+         ["date", 2024, 2, 29], ["datetime", 2024, 5, 6, 7, 8, 9, 0, None], ["datetime", 2024, 5, 6, 7, 8, 9, 1, 330], ["time", 1, 2, 3, 0],
+         ["td", 1, 3661, 250000], ["td", -1, 0, 0], ["td", 0, 0, 0], ["list", []], ["list", [["int", "1"], ["none"]]], ["tuple", [["str", "a"]]],
+         ["dict", []], ["dict", [[["str", "k"], ["int", "1"]], [["int", "2"], ["none"]]]], ["set", [["int", "1"]]], ["complex", 1.0, -2.5],
+         ["nptd", None, "ns"], ["nptd", 14, "M"], ["nptd", 90061, "s"]]
+    # builtin / library subclass instances
+    bases = {"int": [["int", "5"], ["int", "0"], ["int", str(2**64)]], "float": [["float", f15], ["float", "nan"]], "str": [["str", "abc"], ["str", ""]],
+             "bytes": [["bytes", "6162ff"]], "bytearray": [["bytearray", "6162"]], "dec": [["dec", "1.50"], ["dec", "NaN"]],
+             "date": [["date", 2020, 1, 2]], "datetime": [["datetime", 2020, 1, 2, 3, 4, 5, 0, None]], "td": [["td", 1, 5, 0]],
+             "dict": [["dict", [[["str", "a"], ["int", "1"]]]], ["dict", []]], "list": [["list", [["int", "1"], ["int", "2"]]], ["list", []]],
+             "tuple": [["tuple", [["int", "1"], ["str", "b"]]], ["tuple", []]]}
+    for base, specs in bases.items():
+        for cls in SUBS[base]:
+            for sp in specs:
+                t.append(["sub", cls, sp])
+    # ndarray subclasses
+    data = {"int64": (3, [4], [1, 2, 3], [[1, 2], [3, 4]]), "float64": (f25, [f15], [f15, fm, "nan"], [[f15, f25], [fm, f15]]),
+            "bool": (True, [False], [True, False, True], [[True, False], [False, True]]), "uint8": (7, [9], [0, 255], [[1, 2], [3, 4]])}
+    for dtype, (d0, d1, dn, d2) in data.items():
+        t.append(["npsub", "masked", dtype, d0, None])
+        t.append(["npsub", "masked", dtype, d0, True])
+        t.append(["npsub", "masked", dtype, d1, [False]])
+        t.append(["npsub", "masked", dtype, d1, [True]])
+        t.append(["npsub", "masked", dtype, dn, [False, True, False] if len(dn) == 3 else [False, True]])
+        t.append(["npsub", "masked", dtype, dn, None])
+        t.append(["npsub", "masked", dtype, d2, [[False, True], [True, False]]])
+        t.append(["npsub", "masked", dtype, [], None])
+        t.append(["npsub", "matrix", dtype, d2, None])
+        t.append(["npsub", "matrix", dtype, [d1], None])        # 1 x 1
+        t.append(["npsub", "matrix", dtype, [dn], None])        # 1 x n
+        for cls in ("recarray", "subarr"):
+            for d in (d0, d1, dn, d2, []):
+                t.append(["npsub", cls, dtype, d, None])
+    t += [["npsub", "masked_const", None, None, None], ["npsub", "masked", "U", ["a", "bc"], [False, True]],
+          ["npsub", "masked", "timedelta64[s]", [1, 2], [True, False]], ["npsub", "masked", "datetime64[D]", ["2020-01-01", "NaT"], None],
+          ["npsub", "recarray", "struct", [[1, 2], [3, 4]], None], ["npsub", "recarray", "struct", [], None],
+          ["npsub", "subarr", "U", ["a", "bc"], None], ["npsub", "subarr", "S", ["61", "ff"], None], ["npsub", "subarr", "timedelta64[s]", [1, 2], None],
+          ["npsub", "subarr", "timedelta64[s]", 61, None], ["npsub", "subarr", "datetime64[D]", "2020-02-29", None],
+          ["npsub", "subarr", "complex128", [[1.0, 2.0]], None], ["npsub", "subarr", "object", [["int", "1"], ["none"]], None],
+          ["npsub", "chararray", "U", ["a", "bc"], None], ["npsub", "chararray", "S", ["61", "62"], None]]
+    # plain ndarray cells of every dtype / shape, NumPy scalars of every kind
+    t += [["nparr", dtype, d] for dtype, ds in data.items() for d in ds] + NPARR_MORE
+    t += [["nparr", "object", [["int", "1"], ["str", "x"], ["none"]]], ["nparr", "object", [["sub", "SubInt", ["int", "4"]]]]]
+    for k, v in (("int8", "-128"), ("int16", "-5"), ("int32", "7"), ("int64", str(-2**63)), ("uint8", "255"), ("uint16", "9"), ("uint32", "7"),
+                 ("uint64", str(2**64 - 1)), ("float16", f15), ("float32", "nan"), ("float64", float(0.1).hex()), ("longdouble", float(0.1).hex()),
+                 ("longdouble", "nan"), ("bool", True), ("bool", False), ("str", "x y"), ("bytes", "6162"), ("datetime64", "NaT"),
+                 ("datetime64", "2020-01-01"), ("complex64", "1+2j"), ("complex128", "-1.5j")):
+        t.append(["np", k, v])
+    return t
+
+
+def kind_cases(tier):
+    """The kind table as frames: every spec alone in a one-cell frame (quick: eager / lazy and the colour alternating with the
+    index, neighbours in the table being the same class with another shape; thorough: each both eager and lazy), then six at a
+    time in the value column of a labelled two-column frame, eager and lazy (limit 3: all shown; limit 1: ellipsis), the
+    other settings cycling."""
+    t = kind_table()
+    for i, spec in enumerate(t):
+        if tier != "quick" or i % 2 == 0:
+            yield _one_cell(spec, colorize=bool(i % 4 < 2), show_types=bool((i // 2) % 2))
+        if tier != "quick" or i % 2 == 1:
+            yield dict(_one_cell(spec, colorize=not (i % 4 < 2), tt=bool(i % 3)), lazy=True)
+    for j in range(0, len(t), 6):
+        chunk = t[j:j + 6]
+        rows = [[["str", "r%d" % (j + i)], sp] for i, sp in enumerate(chunk)]
+        k = j // 6
+        for lazy in (False, True):
+            cfg = {"limit": 3 if k % 3 else 1, "dw": [200, True, 40, False][k % 4], "mcw": [32, 6, 12][k % 3], "colorize": bool(k % 2) != lazy,
+                   "tt": k % 5 != 4, "show_types": bool(k % 2)}
+            if k % 4 == 2:
+                cfg["argkind"] = "sub"
+            yield {"names": ["kind", "value"], "schema": None, "rows": rows, "lazy": lazy, "idcol": False, "cfg": cfg,
+                   "md": {"limit": 5, "mcw": 30}, "cols": [80, 30, 200][k % 3]}
+
+
 def exhaustive(tier):
     top = 20 if tier == "quick" else 30
     lims = range(1, 5) if tier == "quick" else range(1, 9)
@@ -940,8 +1261,11 @@ def exhaustive(tier):
                 for lazy in (False, True):
                     for tt in (False, True):
                         yield _ints_case(n, limit, lazy, tt)
+        yield from kind_cases(tier)
 
-    return it(), f"every (rows 0..{top}) x (limit {lims[0]}..{lims[-1]}) x eager/lazy x head-only/top-and-tail on a two-column id frame"
+    return it(), (f"every (rows 0..{top}) x (limit {lims[0]}..{lims[-1]}) x eager/lazy x head-only/top-and-tail on a two-column id frame; "
+                  f"the cell-class table ({len(kind_table())} specs: every listed kind, every builtin-subclass instance, every ndarray subclass x "
+                  "dtype x shape, every ndarray dtype, every NumPy scalar kind) one cell per frame eager and lazy and six per frame")
 
 
 def generate(rng, tier):
@@ -994,7 +1318,9 @@ def shrink(case):
         yield dict(case, cfg=dict(cfg, colorize=False))
     if cfg["show_types"]:
         yield dict(case, cfg=dict(cfg, show_types=False))
-    if cfg["dw"] != 200:
+    if cfg["dw"] != 200 or isinstance(cfg["dw"], bool):
         yield dict(case, cfg=dict(cfg, dw=200))
+    if cfg.get("argkind") == "sub":
+        yield dict(case, cfg={k: v for k, v in cfg.items() if k != "argkind"})
     if cfg["mcw"] != 32:
         yield dict(case, cfg=dict(cfg, mcw=32))
